@@ -27,7 +27,7 @@ MAPS = ["Test", "A9", "US101", "a", "x9Y0", "101", "9a",      # alphanumeric nam
 MAP_IDS = [1, 2, 10, 33, 1000]      # 1000, 300, 999: beyond the small-integer cache (value equality, not identity)
 CONFS = [None, 1, 2, 10, 300]
 BEHS = [None, "S", "T", "P", "I"]
-PREDS = [None, 1, 3, 999, [1, 2], [2, 10, 3]]
+PREDS = [None, 1, 3, 999, [1, 2], [2, 10, 3], [3]]      # "one or several prediction ids": also a list that holds one
 VERS = ["2020a", "2018b"]
 QUICK_COUNTRIES = ["ZAM", "DEU", "USA", "CHN", "AUS"]
 
@@ -100,7 +100,11 @@ def _check_sid(kw, res):
         return True
     for name in ("cooperative", "country_id", "map_name", "map_id", "configuration_id", "obstacle_behavior", "prediction_id",
                  "scenario_version"):
-        if getattr(x, name) != getattr(y, name) or type(getattr(x, name)) is not type(getattr(y, name)):
+        vx, vy = getattr(x, name), getattr(y, name)
+        if name == "prediction_id":
+            # one prediction id may be held as a number or as a list with that one number: the same id (the statement asks for an EQUAL id)
+            vx, vy = ([vx] if isinstance(vx, int) else vx), ([vy] if isinstance(vy, int) else vy)
+        if vx != vy or type(vx) is not type(vy):
             res.violation(f"C13|ScenarioID|{name}|parse-mismatch",
                           f"{s!r}: {name} {getattr(x, name)!r} -> {getattr(y, name)!r}", case)
     if not (x == y) or not (y == x):
